@@ -37,12 +37,12 @@ def run(ctx):
     ctx.evidence = lambda coverage, assumptions=None, level="proof": captured.update(cov=coverage, asm=assumptions, level=level)
     out = ec.run_engine_check(
         ctx,
-        profile=[("final", 224, 2400), ("mixed", 96, 1200), ("tol", 360, 1440)],
+        profile=[("final", 224, 9600), ("mixed", 96, 4800), ("tol", 360, 2880)],
         n_quick=0, n_thorough=0,
         extra_header="From Coercion.C04 Require Import MonC04.",
         monitors=["mon_final", ("mon_final_diag", "list")],
         release_obligation=True,
-        multi_quick=40, multi_thorough=400,
+        multi_quick=40, multi_thorough=1200,
         finalfn=(2000, 7776),
         proj="c04",
         rule_extra="mon_final_diag codes: %s." % "; ".join("%d %s" % kv for kv in sorted(CODES.items())),
